@@ -6,10 +6,11 @@ import Model.Subtree
 `Merkle.checkSubtree` against `torchwood.ValidSubtree` / `torchwood.CheckSubtree`. Line protocol
 at the top of `harness/internal/eng/subtree.go`; the scenario header lines are the witness engine's. -/
 namespace Driver.Subtree
-open _root_.Witness _root_.Checkpoint _root_.Subtree
+open _root_.Checkpoint _root_.Subtree
+open _root_.Witness (Hash Resp symSig)
 open Driver.Witness (node emptyHash Desc parseDescs parseNote parseHashes showDescs)
 
-def parseForm : String → Option BodyForm
+def parseForm : String → Option Subtree.BodyForm
   | "ok" => some .ok | "noSeparator" => some .noSeparator | "fewLines" => some .fewLines
   | "noPrefix" => some .noPrefix | "noSpace" => some .noSpace | "badStart" => some .badStart
   | "badEnd" => some .badEnd | "badHash" => some .badHash | "badProofHash" => some .badProofHash
